@@ -691,3 +691,27 @@ Proof.
   cbn zeta. split; [|split; vm_compute; reflexivity].
   repeat constructor; cbn; intuition discriminate.
 Qed.
+
+(* ---- round 5: where the two engines still differ (recorded finding json-path-ends-at-composite) ---- *)
+(* a json parameter whose path ends at an OBJECT (or an array): the ClickHouse path extracts if(JSONType(..) == 'String',
+   JSONExtractString(..), JSONExtractRaw(..)) -- the raw text of the object, a non-empty string, which becomes the label --,
+   the in-process walker (model InternalJson.json_params, tied to planner_parser_json.go on every run) assigns nothing where a
+   path ends at a composite.  For every ClickHouse-side extraction json_get that returns the object's text, the in-process
+   decoder of that very line (the stage's own code over the jx value tree) is NOT linked to it: the hypothesis decoders_linked
+   of inprocess_engine_agrees_with_sql_reference excludes exactly this input (recorded finding json-path-ends-at-composite:
+   `{app="x"} | json x="a"` on the line {"a":{"b":1}} answers x="{"b":1}" on the ClickHouse path, no label x in process). *)
+Theorem decoder_link_refuted_where_a_path_ends_at_an_object :
+  let jp := {| Logql.pp_label := "x"; Logql.pp_val := "a"; Logql.pp_path := Some ["a"] |}%string in
+  let ppl := [Logql.PParser Logql.PJson [jp]] in
+  let line := "{""a"":{""b"":1}}"%string in
+  let tree := InternalJson.JObj [("a", InternalJson.JObj [("b", InternalJson.JRaw "1")])]%string in
+  let parse9 := fun (i : N) (l : string) =>
+    InternalJson.json_decode (InternalJson.JsonParams [("x", [InternalJson.PKey "a"])]%string) (Some tree) in
+  forall json_get : string -> list string -> string,
+    json_get line ["a"%string] = "{""b"":1}"%string ->
+    parse9 0%N line = Some [] /\ ~ B.decoders_linked json_get parse9 0%N ppl.
+Proof.
+  cbv zeta. intros json_get Hget. split; [reflexivity|].
+  intros [H _]. specialize (H "{""a"":{""b"":1}}"%string). cbn in H. rewrite Hget in H. vm_compute in H. discriminate H.
+Qed.
+Print Assumptions decoder_link_refuted_where_a_path_ends_at_an_object.
